@@ -17,13 +17,13 @@ class C04(ModelCheck):
             'completion in first-appearance order) and the demux from tail tap to output ("results are emitted as they are produced"). '
             'non-trivial: >= 2 groups and >= 3 events; distinct = distinct (program, schedule)')
     assumptions = ['NaN keys are not generated']
-    probe_names = ('keys>=5', 'nested_in_window', 'nested_in_group_by', 'key:big', 'key:tuple', 'key:str', 'key:float')
+    probe_names = ('key:mixed_equal_types', 'long_stream', 'keys>=5', 'nested_in_window', 'nested_in_group_by', 'key:big', 'key:tuple', 'key:str', 'key:float')
     values = ('small', 'small', 'inc', 'runs', 'dups', 'wide')
 
     def gen_program(self, rng, tier):
         g = Gen(rng, weights={'group_by': 4, 'roll': 2, 'split': 2, 'time_split': 0, 'progress': 0, 'tee_map': 1}, max_nest=2,
                 small=(tier == 'quick'))
-        key = rng.choice(['rk', 'rk_big', 'rk_tup', 'rv_mod3', 'rv_div2big', 'rv_tup', 'rn_div3', 'rv_flt'])
+        key = rng.choice(['rk', 'rk_big', 'rk_tup', 'rv_mod3', 'rv_div2big', 'rv_tup', 'rn_div3', 'rv_flt', 'rv_mixed', 'rv_zero', 'rv_nest'])
         inner = g.pipeline(St('rec'), Flags(deny=('time_split', 'progress')), rng.choice([0, 1, 1]), rng.choice([1, 2, 2, 3]))
         node = {'op': 'group_by', 'key': key, 'inner': inner}
         shape = rng.random()
@@ -34,11 +34,6 @@ class C04(ModelCheck):
         if shape < 0.85:
             return [{'op': 'roll', 'window': rng.randint(1, 6), 'stride': rng.randint(1, 6), 'inner': [node]}]
         return [{'op': 'split', 'key': rng.choice(['rv_mod3', 'rn_div3', 'rv_div2big']), 'inner': [node]}]
-
-    def sizes(self, rng, tier):
-        if tier == 'quick':
-            return rng.choice([1, 2, 3, 4, 6, 12]), rng.choice([6, 12, 24, 40])
-        return rng.choice([1, 2, 4, 8, 12]), rng.choice([8, 24, 60, 150])
 
     def probe(self, case, ctx, out):
         ModelCheck.probe(self, case, ctx, out)
@@ -63,6 +58,10 @@ class C04(ModelCheck):
                 p['key:str'] += 1
             if k == 'rv_flt':
                 p['key:float'] += 1
+            if k in ('rv_mixed', 'rv_zero'):
+                p['key:mixed_equal_types'] += 1
+        if len(case['events']) >= 250:
+            p['long_stream'] += 1
 
 
 CHECK = C04()
